@@ -563,7 +563,7 @@ fn execute(sys: &Sys, t: &Tables, local: &Local, vi: usize, a: &Action, sync_poo
     let mut flags = StepFlags::default();
     let mut steps = 0;
     if a.restart {
-        local = local.restarted();
+        local = bftsim::real_restart(&sys.w, vi, &local);
     }
     for linp in &a.inputs {
         let inp = &materialise(sys, t, linp);
@@ -909,7 +909,7 @@ pub struct GoodPeriod {
 pub fn good_period(sys: &Sys, t: &Tables, g: &G, max_timeout_rounds: u32) -> GoodPeriod {
     use std::collections::VecDeque;
     let n = sys.correct.len();
-    let mut locals: Vec<Local> = g.locals.iter().map(|l| t.locals[*l as usize].restarted()).collect();
+    let mut locals: Vec<Local> = g.locals.iter().enumerate().map(|(i, l)| bftsim::real_restart(&sys.w, sys.correct[i], &t.locals[*l as usize])).collect();
     let start_blocks: Vec<usize> = locals.iter().map(|l| l.blocks.len()).collect();
     let mut inbox: Vec<VecDeque<SignedMsg>> = vec![VecDeque::new(); n];
     let mut trace = vec![];
